@@ -45,6 +45,23 @@ fn c13_hash_pipeline_small_buffers() {
     }
 }
 
+/// Quick-tier smoke: two sizes, three range shapes, chunk sizes 1/2/5.
+#[test]
+fn c13_smoke() {
+    for n in [7usize, 16] {
+        let d = data(n);
+        let nn = n as u64;
+        for (ranges, excl) in [(vec![], true), (vec![(1u64, 2u64), (nn - 2, 1)], true), (vec![(2, nn - 3)], false)] {
+            let expect = reference_digest(&d, &ranges, excl);
+            for buf in [1usize, 2, 5] {
+                let (got, steps) = hash_with_buf(&d, &ranges, excl, buf).expect("hash");
+                assert_eq!(got, expect, "n={n} ranges={ranges:?} excl={excl} buf={buf}");
+                assert!(steps.windows(2).all(|w| w[1].0 > w[0].0), "steps not increasing: {steps:?}");
+            }
+        }
+    }
+}
+
 #[test]
 fn c13_hash_pipeline_concurrent_callers() {
     // several caller threads, each with its own worker hand-offs
@@ -92,8 +109,8 @@ fn c24_smoke() {
     let (s1, b1) = (shared.clone(), barrier.clone());
     let a = std::thread::spawn(move || {
         b1.wait();
-        let signed = sign_tiny(&s1, signer().as_ref()).expect("sign on shared context must not be cancelled");
-        read_summary(&s1, &signed).expect("read on shared context")
+        // sign only (the read-back is covered by c24_shared_sign_read): keeps the quick-tier smoke small
+        sign_tiny(&s1, signer().as_ref()).expect("sign on shared context must not be cancelled").len()
     });
     let (s2, o2, b2) = (shared.clone(), other.clone(), barrier.clone());
     let b = std::thread::spawn(move || {
@@ -108,12 +125,10 @@ fn c24_smoke() {
         assert_eq!(st.get_value::<usize>("core.merkle_tree_max_proofs").unwrap(), 9);
         seen
     });
-    let (state, gen, fails) = a.join().unwrap();
+    let signed_len = a.join().unwrap();
     let seen = b.join().unwrap();
     assert!(!seen, "shared context observed as cancelled although only the other one was cancelled");
-    assert_eq!(state, "Valid");
-    assert_eq!(gen, "gen-shared");
-    assert_eq!(fails, 0);
+    assert!(signed_len > tiny_jpeg().len());
     assert!(other.is_cancelled() && !shared.is_cancelled());
 }
 
@@ -208,5 +223,28 @@ fn c24_shared_sign_read() {
         .collect();
     for h in hs {
         assert_eq!(h.join().unwrap(), seq);
+    }
+}
+
+/// Engine self-test (ignored by default; `run_miri.sh selftest` / `run_tsan.sh selftest` add
+/// `--ignored`): a planted unsynchronised write from two threads.  Both engines must report it.
+#[test]
+#[ignore]
+fn selftest_planted_data_race() {
+    static mut COUNTER: u64 = 0;
+    let hs: Vec<_> = (0..2)
+        .map(|_| {
+            std::thread::spawn(|| {
+                for _ in 0..100 {
+                    unsafe {
+                        let p = std::ptr::addr_of_mut!(COUNTER);
+                        p.write(p.read() + 1);
+                    }
+                }
+            })
+        })
+        .collect();
+    for h in hs {
+        h.join().unwrap();
     }
 }
